@@ -269,6 +269,21 @@ def check_join(case):
     items = flat(args)
     want = ''.join('' if x is None else (x if isinstance(x, str) else str(x)) for x in items)
     want_text('CONCATENATE(%s)' % ','.join(names), env, want, 'CONCATENATE of %r' % (args,))
+
+    def written(names_, args_):
+        # the same list with its blank items left out of the text (an omitted slot is a blank), in one of the three separator styles; the grammar takes
+        # a run of several omitted slots at the start of a list only
+        slots = ['' if a is None else n for n, a in zip(names_, args_)]
+        lead = 0
+        while lead < len(slots) and slots[lead] == '':
+            lead += 1
+        rest = slots[lead:]
+        if any(rest[i] == '' and (i + 1 == len(rest) or rest[i + 1] == '') for i in range(len(rest))) or lead == len(slots):
+            return None
+        return [',', ';', '\\'][(len(slots) + lead) % 3].join(slots)
+    w = written(names, args)
+    if w is not None and w != ','.join(names):
+        want_text('CONCATENATE(%s)' % w, env, want, 'CONCATENATE of %r with the blanks written as omitted slots' % (args,))
     targs = case['targs']
     tnames = ['v_%s' % 'klmnopqrst'[i] for i in range(len(targs))]
     env = Env(vars=dict(zip(tnames, targs) ), )
@@ -280,6 +295,11 @@ def check_join(case):
         want = case['delim'].join('' if x is None else x for x in titems)
     want_text('TEXTJOIN(v_d,%s,%s)' % ('TRUE' if case['ignore'] else 'FALSE', ','.join(tnames)), env, want,
               'TEXTJOIN(%r,%s) of %r' % (case['delim'], case['ignore'], targs))
+    w = written(['X'] + tnames, ['X'] + list(targs))
+    if w is not None and '' in w.replace(',', ' ').replace(';', ' ').replace('\\', ' ').split(' '):
+        sep = [c for c in (',', ';', '\\') if c in w][0]
+        want_text('TEXTJOIN(v_d%s%s%s%s)' % (sep, 'TRUE' if case['ignore'] else 'FALSE', sep, w[1 + len(sep):]), env, want,
+                  'TEXTJOIN(%r,%s) of %r with the blanks written as omitted slots' % (case['delim'], case['ignore'], targs))
 
 
 def join_key(c):
